@@ -24,7 +24,7 @@ MANIFEST = {
     'text': 'Every code point (BMP in quick, all 0x110000 in thorough) and '
             'every string up to length 4/5 over & < > " \' a e-acute emoji '
             'blank newline, plus every special character at every position of multi-line / long / entity-bearing carriers, as str and as bytes in the template encoding, is inserted '
-            'through 33 forms (incl. a second insertion after a clean / tainted one, and insertions inside block bodies and nested blocks) (entity, html_quote in three syntaxes, '
+            'through 37 forms (incl. a second insertion after a clean / tainted one, and insertions inside block bodies and nested blocks) (entity, html_quote in three syntaxes, '
             'expression, full path with size/null/missing/etc, '
             'fmt=html-quote, plain) on the real code; each result must equal '
             'html.escape(value, quote=True) (plain forms: the value).  '
@@ -107,6 +107,11 @@ FORMS = [
      'fmt=html-quote size=99></dtml-with>', True),
     ('epfs-if-full', 'String', '%(if c)[%(x html_quote size=99)s%(if c)]',
      True),
+    # variables whose names are the one-letter codes of compiled blocks
+    ('plain-named-h', 'HTML', '<dtml-var h>', False),
+    ('plain-named-v', 'HTML', '<dtml-var v>|<dtml-var i>', False),
+    ('plain-epfs-named-h', 'String', '%(h)s', False),
+    ('hq-named-h', 'HTML', '<dtml-var h html_quote>|&dtml-v;', True),
     ('plain', 'HTML', '<dtml-var x>', False),
     ('plain-epfs', 'String', '%(x)s', False),
     ('plain-expr', 'HTML', '<dtml-var "x">', False),
@@ -117,7 +122,7 @@ FORM_BY_ID = {f[0]: f for f in FORMS}
 EXPECT = {'text-around': '[%s|%s]', 'after-clean-ent': 'word|%s',
           'after-clean-hq': 'word|%s', 'after-clean-mixed': 'word|%s',
           'after-tainted': '&lt;t&gt;|%s', 'in-loop': 'word|%s,word|%s,',
-          'in-full': '%s,%s,'}
+          'in-full': '%s,%s,', 'hq-named-h': '%s|%s'}
 
 
 def expected(form, value):
@@ -125,7 +130,7 @@ def expected(form, value):
     if 'null=' in src and not value:
         return 'N'       # null= replaces an empty value (C15)
     if not quoting:
-        return value
+        return value + '|' + value if form == 'plain-named-v' else value
     esc = html.escape(value, True)
     f = EXPECT.get(form, '%s')
     return f % ((esc,) * f.count('%s'))
@@ -177,8 +182,8 @@ def template(form, encoding=None, pre=False, variant='new'):
         if pre:
             # this compiled template has inserted a tainted value before
             from AccessControl.tainted import TaintedString
-            t(x=TaintedString('<pre&>'), c='word', two=[1, 2], t=tainted(),
-              n=0)
+            p = TaintedString('<pre&>')
+            t(x=p, c='word', two=[1, 2], t=tainted(), n=0, h=p, v=p, i=p)
         _tcache[key] = t
     return t
 
@@ -379,7 +384,8 @@ def tainted():
 def render(form, value, enc=None, pre=False, variant='new'):
     t = template(form, None if variant != 'new' else enc, pre, variant)
     try:
-        return t(x=value, c='word', two=[1, 2], t=tainted(), n=0)
+        return t(x=value, c='word', two=[1, 2], t=tainted(), n=0, h=value,
+                 v=value, i=value)
     except Exception as e:       # CaseTimeout is a BaseException
         return e
 
